@@ -819,6 +819,81 @@ def r15_constraint_registration(chk, prog, rule='R15'):
               'the end conditions are evaluated for the registered constraints', g.loc())
 
 
+def r17_disjoint_any_order(chk, prog, rule='R17'):
+    """the disjoint constraint is decided for values in ANY order: hasIntersection() of an adapter whose container does
+    not keep its elements sorted (trait IsSorted false: vector, deque, list, forward_list, the unordered containers)
+    must not reach - through repository helpers - a MERGE walk (a loop over two cursors that advances one of them
+    depending on `*a < *b`, correct for sorted ranges only) unless the call is guarded by is_sorted() of the data.
+    '-l 3,1 -r 1,4' holds 1 in both lists, and the merge walk does not see it."""
+    import re
+
+    def merge_shaped(g):
+        """a loop whose body advances different iterator PARAMETERS on the two sides of a `<` comparison of their
+        dereferenced values"""
+        if g.body is None or len(g.params) < 4:
+            return False
+        pn = {p_['name'] for p_ in g.params}
+        for l in loops_in(g):
+            incs = {strip_all_casts(call_args(x)[0] if x.get('k') == 'CXXOperatorCallExpr' else children(x)[0]).get(
+                'ref', {}).get('name') for x in walk(l)
+                if (x.get('k') == 'CXXOperatorCallExpr' and x.get('op') == '++') or
+                (x.get('k') == 'UnaryOperator' and x.get('op') == '++')}
+            lt_ = any(x.get('k') in ('BinaryOperator', 'CXXOperatorCallExpr') and x.get('op') == '<' and
+                      len({y['ref'].get('name') for y in walk(x) if y.get('k') == 'DeclRefExpr'} & pn) >= 2
+                      for x in walk(l))
+            if lt_ and len(incs & pn) >= 2:
+                return True
+        return False
+
+    def unguarded_merge(g, depth=0, seen=None):
+        """name of a merge-shaped repository function reachable from g without an is_sorted() guard, else None"""
+        seen = seen if seen is not None else set()
+        if g.key in seen or depth > 4 or g.body is None:
+            return None
+        seen.add(g.key)
+        for c in g.calls():
+            h = prog.by_key.get(c.get('ckey'), [None])[0]
+            if h is None or not (c.get('callee') or '').startswith('celma::'):
+                continue
+            pos = g.cfg.position(c)
+            guarded = any(cond is not None and any(
+                y.get('k') in CALL_KINDS and (y.get('callee') or '').split('::')[-1].split('<')[0] == 'is_sorted'
+                for y in walk(cond)) and g.cfg.guarded_by_edge(pos, bid, 0) for bid, cond in g.cfg.cond_blocks())
+            if guarded:
+                continue
+            if merge_shaped(h):
+                return h.name
+            r = unguarded_merge(h, depth + 1, seen)
+            if r:
+                return r
+        return None
+    consts = {}
+    for (q, f_, l), v in prog.vars.items():
+        m = re.match(r'(celma::prog_args::detail::(?:KeyValue)?ContainerAdapter<.*>)::(\w+)$', q)
+        if m and 'val' in v:
+            consts.setdefault(m.group(1), {})[m.group(2)] = v['val']
+    n = 0
+    for f in prog.functions:
+        cls = f.cls or ''
+        if f.short != 'hasIntersection' or f.body is None or 'ContainerAdapter<' not in cls or \
+                not cls.startswith('celma::prog_args::detail::'):
+            continue
+        if any(x.get('k') == 'CXXThrowExpr' for x in f.walk()) and not any(x.get('k') == 'ReturnStmt' for x in f.walk()):
+            continue                      # not supported for this container (throws)
+        tr = consts.get(cls, {})
+        kind = re.sub(r'<.*', '', cls.split('ContainerAdapter<', 1)[1])
+        is_sorted_cont = bool(tr.get('IsSorted')) if 'IsSorted' in tr else kind in (
+            'std::set', 'std::multiset', 'std::map', 'std::multimap')
+        if is_sorted_cont:
+            continue
+        n += 1
+        bad = unguarded_merge(f)
+        chk.check(bad is None, rule, f.name, 'the disjoint test of a %s destination does not depend on the order of '
+                  'the values' % kind, f.loc(), 'it ends in the merge walk %s, which is correct for sorted ranges only'
+                  % (bad or ''))
+    chk.require(n >= 4, 'hasIntersection() of adapters of unsorted containers: %d' % n)
+
+
 def run(chk):
     prog, units = rules.prog_args_program()
     chk.units = units
@@ -861,5 +936,10 @@ def run(chk):
     r14_level_counter_checks_new_level(chk, prog)
     chk.rule('R15', 'handler constraints are registered only after validated()', 2)
     r15_constraint_registration(chk, prog)
+    chk.rule('R16', 'a tuple value is converted to the type of the element it belongs to (element index = values stored so far)', 1)
+    from . import c06 as _c06
+    _c06.r3_tuple_element_index(chk, prog, rule='R16')
+    chk.rule('R17', 'the disjoint constraint is decided for values in any order', 4)
+    r17_disjoint_any_order(chk, prog)
     from . import c02_shapes
     c02_shapes.run(chk, prog)
